@@ -115,6 +115,25 @@ func (e *ErrSpec) raise() error {
 	return errors.New("bad ErrSpec kind " + e.Kind)
 }
 
+// emitLogs raises the scripted logs of one call the way an allocation-conscious handler does: through ONE []KV
+// buffer that is refilled in place for every log and scribbled over afterwards. A framework that copies the
+// extras when the log is raised (as ClientLog must) is unaffected; one that keeps the caller's slice shows
+// later values, or the scribble, in earlier logs.
+func emitLogs(logf func(vgirpc.LogLevel, string, ...vgirpc.KV), logs []LogSpec) {
+	var buf []vgirpc.KV
+	for _, l := range logs {
+		buf = buf[:0]
+		for _, p := range l.Extras {
+			buf = append(buf, vgirpc.KV{Key: p[0], Value: p[1]})
+		}
+		logf(vgirpc.LogLevel(l.Level), l.Msg, buf...)
+	}
+	buf = buf[:cap(buf)]
+	for i := range buf {
+		buf[i] = vgirpc.KV{Key: "scribbled-after-the-call", Value: "x"}
+	}
+}
+
 func kvs(x [][2]string) []vgirpc.KV {
 	out := make([]vgirpc.KV, len(x))
 	for i, p := range x {
@@ -167,8 +186,12 @@ func (s *Surface) trace(f string, a ...any) {
 	s.mu.Unlock()
 }
 
-func (s *Surface) PushUnary(c CallScript)    { s.mu.Lock(); s.unaryQ = append(s.unaryQ, c); s.mu.Unlock() }
-func (s *Surface) PushStream(c StreamScript) { s.mu.Lock(); s.streamQ = append(s.streamQ, c); s.mu.Unlock() }
+func (s *Surface) PushUnary(c CallScript) { s.mu.Lock(); s.unaryQ = append(s.unaryQ, c); s.mu.Unlock() }
+func (s *Surface) PushStream(c StreamScript) {
+	s.mu.Lock()
+	s.streamQ = append(s.streamQ, c)
+	s.mu.Unlock()
+}
 
 func (s *Surface) popUnary() CallScript {
 	s.mu.Lock()
@@ -271,9 +294,7 @@ func (st *ScriptState) turn(kind string, in arrow.RecordBatch, out *vgirpc.Outpu
 	if sf != nil {
 		sf.trace("%s#%d(in=%d)", kind, pos, insum)
 	}
-	for _, l := range t.Logs {
-		out.ClientLog(vgirpc.LogLevel(l.Level), l.Msg, kvs(l.Extras)...)
-	}
+	emitLogs(out.ClientLog, t.Logs)
 	emit := func() error {
 		b := int64Batch(outSchemaV, []int64{t.Value + insum})
 		if len(t.Meta) > 0 {
@@ -346,19 +367,18 @@ func (st *ScriptStateC) OnCancel(ctx context.Context, cc *vgirpc.CallContext) er
 }
 
 // Methods registered by NewScriptedServer:
-//   u_int (PInt -> int64 = script.Value + x), u_void (PInt -> void),
-//   prod / prod_h (producer, output {v:int64}, optional header {h:int64}),
-//   exch / exch_h (exchange, input {x:int64}, output {v:int64}),
-//   dyn (dynamic: producer iff x is even).
+//
+//	u_int (PInt -> int64 = script.Value + x), u_void (PInt -> void),
+//	prod / prod_h (producer, output {v:int64}, optional header {h:int64}),
+//	exch / exch_h (exchange, input {x:int64}, output {v:int64}),
+//	dyn (dynamic: producer iff x is even).
 func NewScriptedServer(sf *Surface) *vgirpc.Server {
 	s := vgirpc.NewServer()
 	unary := func(name string) func(context.Context, *vgirpc.CallContext, PInt) (int64, error) {
 		return func(_ context.Context, cc *vgirpc.CallContext, p PInt) (int64, error) {
 			c := sf.popUnary()
 			sf.trace("%s(x=%d)", name, p.X)
-			for _, l := range c.Logs {
-				cc.ClientLog(vgirpc.LogLevel(l.Level), l.Msg, kvs(l.Extras)...)
-			}
+			emitLogs(cc.ClientLog, c.Logs)
 			if c.Err != nil {
 				return 0, c.Err.raise()
 			}
@@ -374,9 +394,7 @@ func NewScriptedServer(sf *Surface) *vgirpc.Server {
 		return func(_ context.Context, cc *vgirpc.CallContext, p PInt) (*vgirpc.StreamResult, error) {
 			c := sf.popStream()
 			sf.trace("%s.init(x=%d)", name, p.X)
-			for _, l := range c.Init.Logs {
-				cc.ClientLog(vgirpc.LogLevel(l.Level), l.Msg, kvs(l.Extras)...)
-			}
+			emitLogs(cc.ClientLog, c.Init.Logs)
 			if c.Init.Err != nil {
 				return nil, c.Init.Err.raise()
 			}
